@@ -69,6 +69,8 @@ def configs(tier):
                     c['max_infections'] = 3      # (each path is run twice here; 4 episodes exceed the budget)
                 if tier == 'thorough' and g == 'S3' and I0 == [0] and entry in ('fast_SIR', 'fast_nonMarkov_SIR'):
                     continue                     # hub start on the star: too many orderings for two runs per path
+                if tier == 'thorough' and ((entry == 'fast_nonMarkov_SIS' and g == 'K3') or (entry == 'fast_SIR' and graphs.ALL[g][0] == 4 and not R0)):
+                    continue                     # (path cap / budget: each path is run twice here)
                 c.pop('zero_duration', None)
                 if entry in ('Gillespie_SIS',):
                     c['truncate'] = True
